@@ -223,8 +223,16 @@ func runB(r *Run, s *BSpec) error {
 		r.ViolationAt(f)
 	}
 
-	// new violations: write replay files
+	// new violations: write replay files for the three smallest ones
 	head := repoHead(r.Repo)
+	sort.SliceStable(viols, func(i, j int) bool {
+		a, b := len(viols[i].Spec)+8*len(viols[i].Case.Input), len(viols[j].Spec)+8*len(viols[j].Case.Input)
+		return a < b
+	})
+	if len(viols) > 3 {
+		r.Logf("%d groups violated the property; reporting the 3 smallest", len(viols))
+		viols = viols[:3]
+	}
 	for _, v := range viols {
 		g := res.Meta.Groups[v.Group]
 		var variants []batch.Variant
